@@ -6,7 +6,7 @@
       0<=f<6 /\ 0<=l<=30 /\ 0<=k<4^l /\ c = f*2^61 + (2k+1)*4^(30-l). *)
 From Coq Require Import ZArith List Bool Floats Reals.
 From Geo Require Import Base.GoPrim Gen.CellIDFull Model.CellIDTables
-  Base.F64Arith Proofs.C01_Tables Proofs.C01_Algebra Proofs.C01_IJ Proofs.C01_Advance Proofs.C01_Iter Proofs.C01_Point Proofs.C01_Text Proofs.C01_Hilbert Proofs.C01_Inverse Proofs.C01_Nbr Proofs.StUV_Mono.
+  Base.F64Arith Proofs.C01_Tables Proofs.C01_Algebra Proofs.C01_IJ Proofs.C01_Advance Proofs.C01_Iter Proofs.C01_Point Proofs.C01_Text Proofs.C01_Hilbert Proofs.C01_Inverse Proofs.C01_Nbr Proofs.C01_WrapInside Proofs.StUV_Mono.
 (* the hand models compared with Go by the observer (built with this file: one make target) *)
 From Geo Require Model.C01Obs.
 From Geo Require Import Model.CellIDNbr.
@@ -207,28 +207,32 @@ Print Assumptions c01_hilbert_face_to_face.
 
 (** neighbours, same-face part.  [at_pos c f l a b]: c is the valid level-l cell of face f at grid
     position (a,b) (faceIJOrientation c returns a leaf inside that square).  EdgeNeighbors calls
-    cellIDFromFaceIJWrap (a float round trip) even inside the face, hence the premise
-    [H_WRAP_INSIDE] (float64 arithmetic only: for 0 <= i,j < 2^30 the wrap function is
-    cellIDFromFaceIJ — every operation on that path is exact).
-    TODO (not closed): discharge H_WRAP_INSIDE (needs exactness of float_of_Z, *2^-30, /1, floor);
-    cross-face entries (H-WRAP proper: the leaf just outside a face side is the adjacent leaf of
-    the neighbouring face) — covered by [S] against the cube model on every run. *)
-Theorem c01_edge_neighbors_same_face_under_H : H_WRAP_INSIDE -> forall c f l a b, at_pos c f l a b ->
+    cellIDFromFaceIJWrap (a float round trip) even inside the face; [c01_wrap_inside] shows that
+    for 0 <= i,j < 2^30 that function IS cellIDFromFaceIJ (every float operation on the path is
+    exact), so the EdgeNeighbors theorems are closed.
+    TODO (not closed): cross-face entries (H-WRAP: the leaf just outside a face side is the adjacent
+    leaf of the neighbouring face) — covered by [S] against the cube model on every run. *)
+Theorem c01_wrap_inside : forall f i j, 0 <= f < 6 -> 0 <= i < 2 ^ 30 -> 0 <= j < 2 ^ 30 ->
+  s2_cellIDFromFaceIJWrap f i j = s2_cellIDFromFaceIJ f i j.
+Proof. exact wrap_inside. Qed.
+Print Assumptions c01_wrap_inside.
+
+Theorem c01_edge_neighbors_same_face : forall c f l a b, at_pos c f l a b ->
   exists n0 n1 n2 n3, s2_CellID_EdgeNeighbors c = [n0; n1; n2; n3] /\
     (0 <= b - 1 -> at_pos n0 f l a (b - 1)) /\ (a + 1 < 2 ^ l -> at_pos n1 f l (a + 1) b) /\
     (b + 1 < 2 ^ l -> at_pos n2 f l a (b + 1)) /\ (0 <= a - 1 -> at_pos n3 f l (a - 1) b).
-Proof. exact EdgeNeighbors_same_face. Qed.
-Print Assumptions c01_edge_neighbors_same_face_under_H.
+Proof. exact (EdgeNeighbors_same_face wrap_inside). Qed.
+Print Assumptions c01_edge_neighbors_same_face.
 
-Theorem c01_edge_neighbors_interior_under_H : H_WRAP_INSIDE -> forall c f l a b, at_pos c f l a b ->
+Theorem c01_edge_neighbors_interior : forall c f l a b, at_pos c f l a b ->
   1 <= a -> a + 1 < 2 ^ l -> 1 <= b -> b + 1 < 2 ^ l ->
   exists n0 n1 n2 n3, s2_CellID_EdgeNeighbors c = [n0; n1; n2; n3] /\
     at_pos n0 f l a (b - 1) /\ at_pos n1 f l (a + 1) b /\ at_pos n2 f l a (b + 1) /\ at_pos n3 f l (a - 1) b /\
     NoDup [n0; n1; n2; n3] /\
     (forall n, In n [n0; n1; n2; n3] -> s2_CellID_Level n = l /\ s2_CellID_IsValid n = true /\
        n <> c /\ s2_CellID_Intersects c n = false).
-Proof. exact EdgeNeighbors_interior. Qed.
-Print Assumptions c01_edge_neighbors_interior_under_H.
+Proof. exact (EdgeNeighbors_interior wrap_inside). Qed.
+Print Assumptions c01_edge_neighbors_interior.
 
 (** every valid cell has a grid position, the position determines the cell, and the level-l ancestor
     of the leaf at (i,j) is the cell at (i / 2^(30-l), j / 2^(30-l)) (closed) *)
